@@ -131,7 +131,7 @@ def run(chk):
     f = F.load()
     g = CallGraph(f)
     eff = Effects(f, g)
-    chk.rules = ["R-UNDO-SYM", "R-UNDO-SELF", "R-UNDO-ORDER", "R-UNDO-GUARD", "R-EDIT-LOGGED", "R-PUSH"]
+    chk.rules = ["R-UNDO-SYM", "R-UNDO-SELF", "R-UNDO-ORDER", "R-UNDO-GUARD", "R-EDIT-LOGGED", "R-UNDO-INDEX", "R-PUSH"]
     chk.assumptions = ["write sets are may-sets over access paths (field names; indices dropped): equality of the sets is a necessary condition of restorability, not a proof of it",
                        "editor-side state (selection, masks, current layer, caret, dirty flags) is outside the property's list of what must be restored"]
     reviewed = {}
@@ -190,6 +190,7 @@ def run(chk):
     undo_order(chk, f, impls)
     undo_guard(chk, f, g, eff, impls)
     edit_logged(chk, f, g, eff, reviewed)
+    undo_index(chk, f, impls)
     # ------------------------------------------------------------------ R-PUSH
     es = "editor::EditState"
 
@@ -506,3 +507,54 @@ def edit_logged(chk, f, g, eff, reviewed):
     chk.floor("R-EDIT-LOGGED", "EditState methods that edit the document directly", nmeth, 10)
     chk.floor("R-EDIT-LOGGED", "direct edit sites", nsites, 25)
     chk.floor("R-EDIT-LOGGED", "recording calls in those methods", nlog, 10)
+
+
+# ===================================================================================================== R-UNDO-INDEX
+FILTERING = ("Iterator::flatten", "Iterator::filter", "Iterator::filter_map", "Iterator::skip_while", "Iterator::take_while", "Iterator::skip",
+             "Iterator::step_by", "Iterator::flat_map")
+
+
+def undo_index(chk, f, impls):
+    """R-UNDO-INDEX: the operation records keep one entry per row / element of the document (`Vec<Option<..>>`, filled by one
+    push per row in redo); undo and redo recover the row from the entry's position.  `enumerate()` applied *after* an adaptor that
+    drops entries (flatten, filter, filter_map, skip, ...) counts the kept entries instead, so every row behind the first dropped
+    entry is restored into the wrong place.  Expected count on a correct tree: zero; the rule is exercised on every thorough run by
+    the replay of seeds C08/11 and C08/14."""
+    n = 0
+    for ty, d in sorted(impls.items()):
+        for which in ("undo", "redo"):
+            if which not in d:
+                continue
+            b = f.bodies[d[which]]
+            eb = None
+            for bi, t in b.calls():
+                p = t["callee"].get("resolved") or t["callee"].get("path") or ""
+                if not p.endswith("Iterator::enumerate"):
+                    continue
+                n += 1
+                from analysis.expr import ExprBuilder, show
+                eb = eb or ExprBuilder(b)
+                txt = show(eb.operand(t["args"][0]))
+                e = eb.operand(t["args"][0])
+                bad = None
+
+                def walk(x, depth=0):
+                    nonlocal bad
+                    if depth > 12 or not isinstance(x, tuple):
+                        return
+                    if x and x[0] == "call" and isinstance(x[1], str) and x[1].endswith(FILTERING):
+                        bad = x[1].split("::")[-1]
+                    for y in x[1:]:
+                        if isinstance(y, tuple):
+                            walk(y, depth + 1)
+                        elif isinstance(y, list):
+                            for z in y:
+                                walk(z, depth + 1)
+                walk(e)
+                chk.obligation(bad is None)
+                if bad is not None:
+                    short = ty.split("::")[-1]
+                    chk.finding("%s::%s|enumerate-after-%s" % (short, which, bad), rule="R-UNDO-INDEX", where="%s:%s" % (b.file, t["line"]), fn="%s::%s" % (short, which),
+                                what="%s::%s numbers the entries of its record after `%s()` has dropped some of them (`%s`): the number is no longer the row "
+                                     "the entry was taken from" % (short, which, bad, txt[:80]))
+    chk.cov["undo_enumerate_sites"] = n
